@@ -69,11 +69,15 @@ func GatewayTable(kind string, k, dpos, tokens, endBranch int) *prog.Program {
 // merging exclusive gateway so that they arrive over a single incoming flow.
 var MergedArrival bool
 
+// BurstArrival (with MergedArrival) sends the concurrent tokens to the gateway
+// without a task in between, so that they arrive at the same time.
+var BurstArrival bool
+
 // GatewayTableLoop is GatewayTable with the whole block placed in a loop
 // (loop = true) so that the gateways are re-entered: after the block a
 // decision task writes `again`.
 func GatewayTableLoop(kind string, k, dpos, tokens, endBranch int, loop bool) *prog.Program {
-	b := prog.NewBuilder(fmt.Sprintf("%s_k%d_d%d_t%d_e%d_loop%v_m%v", kind, k, dpos, tokens, endBranch, loop, MergedArrival))
+	b := prog.NewBuilder(fmt.Sprintf("%s_k%d_d%d_t%d_e%d_loop%v_m%v", kind, k, dpos, tokens, endBranch, loop, MergedArrival) + map[bool]string{true: "_burst", false: ""}[BurstArrival])
 	s := b.AddNode("start", "")
 	dt := b.AddNode("task", "")
 	var merge string
@@ -102,10 +106,18 @@ func GatewayTableLoop(kind string, k, dpos, tokens, endBranch int, loop bool) *p
 			b.P.Tags = append(b.P.Tags, "merged-arrival")
 		}
 		for i := 0; i < tokens; i++ {
+			if BurstArrival {
+				// no task in between: all tokens reach the gateway at once
+				b.Connect(fork, into, prog.Cond{})
+				continue
+			}
 			// a pass-through task per token so that arrival order is driven by the environment
 			u := b.AddNode("task", "")
 			b.Connect(fork, u, prog.Cond{})
 			b.Connect(u, into, prog.Cond{})
+		}
+		if BurstArrival {
+			b.P.Tags = append(b.P.Tags, "burst")
 		}
 	} else {
 		b.Connect(dt, gw, prog.Cond{})
@@ -639,4 +651,32 @@ func BoundaryShapes() []*prog.Program {
 	build("bnd_sub_i", []bool{true}, true)
 	build("bnd_sub_n", []bool{false}, true)
 	return out
+}
+
+// ParallelBurst: k tokens reach the N x M gateway G over each of its incoming
+// flows at (nearly) the same time, so G is activated k times back to back:
+// start -> fork0 (1 x k) -> XOR merge -> F (1 x N) -> G (N x M) -> d_1..d_M -> ends.
+func ParallelBurst(n, m, k int) *prog.Program {
+	b := prog.NewBuilder(fmt.Sprintf("burst_%dx%d_k%d", n, m, k))
+	s := b.AddNode("start", "")
+	f0 := b.AddNode("and", "")
+	x := b.AddNode("xor", "")
+	b.Connect(s, f0, prog.Cond{})
+	for i := 0; i < k; i++ {
+		b.Connect(f0, x, prog.Cond{})
+	}
+	f := b.AddNode("and", "")
+	b.Connect(x, f, prog.Cond{})
+	g := b.AddNode("and", "")
+	for i := 0; i < n; i++ {
+		b.Connect(f, g, prog.Cond{})
+	}
+	for j := 0; j < m; j++ {
+		d := b.AddNode("task", "")
+		e := b.AddNode("end", "")
+		b.Connect(g, d, prog.Cond{})
+		b.Connect(d, e, prog.Cond{})
+	}
+	b.P.Tags = append(b.P.Tags, "and", "burst", fmt.Sprintf("n%d", n), fmt.Sprintf("m%d", m))
+	return b.Done()
 }
